@@ -5,6 +5,7 @@ import (
 	"go/constant"
 	"go/types"
 	"math/big"
+	"sort"
 
 	"golang.org/x/tools/go/ssa"
 
@@ -515,6 +516,9 @@ func findField(st *types.Struct, name string) ([]int, types.Type) {
 
 func (e *CEnv) index(base, idx Val) Val {
 	c := e.ex.W.C
+	if idx.Tm != nil && !idx.Tm.IsOpen() {
+		e.ex.noteIdx(idx.Tm)
+	}
 	switch bt := base.T.Underlying().(type) {
 	case *types.Slice:
 		arr, off, _, _ := e.ex.sliceParts(base.Tm)
@@ -649,9 +653,34 @@ func (e *CEnv) call(n *ECall) Val {
 		case "floor":
 			v := e.eval(n.Args[0])
 			return Val{T: tInt, Tm: c.ToIntFloor(v.Tm)}
+		case "backing": // reference of a slice's backing array
+			v := e.eval(n.Args[0])
+			arr, _, _, _ := e.ex.sliceParts(v.Tm)
+			return Val{T: tInt, Tm: arr}
+		case "offset":
+			v := e.eval(n.Args[0])
+			_, off, _, _ := e.ex.sliceParts(v.Tm)
+			return Val{T: tInt, Tm: off}
+		case "brk": // allocation frontier: every live reference is below it
+			return Val{T: tInt, Tm: e.st.brk}
+		case "ref": // integer reference of a pointer
+			v := e.eval(n.Args[0])
+			return Val{T: tInt, Tm: e.ex.ptrTerm(v)}
 		case "isnil":
 			v := e.eval(n.Args[0])
 			return Val{T: tBool, Tm: e.ex.equal(v, Val{T: v.T, Tm: e.ex.W.Zero(v.T)}, e.st)}
+		case "unbox": // unbox(ifaceExpr, "pkg.Type"): the dynamic value, meaningful when typeis holds
+			v := e.eval(n.Args[0])
+			name := n.Args[1].(*EStr).V
+			t := e.ex.Prog.LookupType(e.pkg, name)
+			if t == nil {
+				e.fail("unknown type %s", name)
+			}
+			s := e.ex.W.SortOf(t)
+			tk := smt.Mangle(typeKey(t))
+			e.ex.W.C.DeclareFun("box_"+tk, []smt.Sort{s}, e.ex.W.Iface)
+			e.ex.W.C.DeclareFun("unbox_"+tk, []smt.Sort{e.ex.W.Iface}, s)
+			return Val{T: t, Tm: c.App("unbox_"+tk, s, v.Tm)}
 		case "typeis": // typeis(ifaceExpr, "pkg.Type") -- dynamic type test by type name
 			v := e.eval(n.Args[0])
 			name := n.Args[1].(*EStr).V
@@ -756,6 +785,9 @@ func (e *CEnv) applyPred(pd *PredDecl, args []Expr) Val {
 	if len(args) != len(pd.Params) {
 		e.fail("predicate %s expects %d arguments", pd.Name, len(pd.Params))
 	}
+	if pd.Kind == "rec" {
+		return e.applyRec(pd, args)
+	}
 	s := e.sub()
 	s.depth = e.depth + 1
 	if s.depth > 20 {
@@ -805,4 +837,128 @@ func (e *CEnv) convertSpec(v Val, t types.Type) Val {
 	}
 	e.fail("conversion of %s to %s unsupported in specifications", v.T, t)
 	return Val{}
+}
+
+// ---------------------------------------------------------------- recursive spec functions
+
+type recDef struct {
+	name  string
+	axiom *smt.Term
+	uses  []string
+}
+
+func (e *CEnv) specType(s string) types.Type {
+	ptr := false
+	if len(s) > 0 && s[0] == '*' {
+		ptr = true
+		s = s[1:]
+	}
+	var t types.Type
+	if s == "" {
+		t = tInt
+	} else if tt := e.lookupTypeName(s); tt != nil {
+		t = tt
+	} else if tt := e.ex.Prog.LookupType(e.pkg, s); tt != nil {
+		t = tt
+	} else {
+		e.fail("unknown type %q in spec declaration", s)
+	}
+	if ptr {
+		return types.NewPointer(t)
+	}
+	return t
+}
+
+func (e *CEnv) applyRec(pd *PredDecl, args []Expr) Val {
+	ex := e.ex
+	c := ex.W.C
+	resT := e.specType(pd.ResType)
+	resSort := ex.W.SortOf(resT)
+	vals := make([]Val, len(args))
+	var argSorts []smt.Sort
+	for i, a := range args {
+		vals[i] = e.eval(a)
+		if vals[i].Tm == nil {
+			vals[i] = Val{T: vals[i].T, Tm: ex.ptrTerm(vals[i])}
+		}
+		argSorts = append(argSorts, vals[i].Tm.Sort)
+	}
+	argTerms := func() []*smt.Term {
+		out := make([]*smt.Term, len(vals))
+		for i, v := range vals {
+			out[i] = v.Tm
+		}
+		return out
+	}
+	// inside the definition of this function for the same state: placeholder application
+	for _, open := range ex.recOpen {
+		if open.pd == pd && open.st == e.st {
+			return Val{T: resT, Tm: c.App(open.placeholder, resSort, argTerms()...)}
+		}
+	}
+	// evaluate the body once over bound variables, recording the heap components it reads
+	memoKey := fmt.Sprintf("%s@%p", pd.Name, e.st)
+	name, ok := ex.recMemo[memoKey]
+	if ok {
+		// the state may have been mutated since: verify that the recorded reads are still current
+		for k, t := range ex.recReads[name] {
+			if cur, have := e.st.heap[k]; !have || cur != t {
+				ok = false
+				break
+			}
+		}
+	}
+	if !ok {
+		ex.recCtr++
+		placeholder := fmt.Sprintf("rec!tmp%d", ex.recCtr)
+		s := e.sub()
+		s.vars = map[string]Val{}
+		s.fr = nil
+		var bound []*smt.Term
+		for i, p := range pd.Params {
+			pt := e.specType(pd.ParamTypes[i])
+			bv := c.Var(fmt.Sprintf("r!%s", p), ex.W.SortOf(pt))
+			if bv.Sort != argSorts[i] {
+				e.fail("argument %d of %s has sort %s, expected %s", i, pd.Name, argSorts[i], bv.Sort)
+			}
+			bound = append(bound, bv)
+			s.vars[p] = Val{T: pt, Tm: bv}
+		}
+		ex.recOpen = append(ex.recOpen, recOpenT{pd: pd, st: e.st, placeholder: placeholder})
+		savedLog := ex.readLog
+		ex.readLog = map[string]*smt.Term{}
+		body := s.eval(pd.Body)
+		reads := ex.readLog
+		ex.readLog = savedLog
+		if savedLog != nil {
+			for k, v := range reads {
+				savedLog[k] = v
+			}
+		}
+		ex.recOpen = ex.recOpen[:len(ex.recOpen)-1]
+		if body.Tm == nil || body.Tm.Sort != resSort {
+			e.fail("body of %s has sort %v, declared %s", pd.Name, body.Tm, resSort)
+		}
+		var ks []string
+		for k := range reads {
+			ks = append(ks, k)
+		}
+		sort.Strings(ks)
+		id := pd.Name
+		for _, k := range ks {
+			id += fmt.Sprintf("_%d", reads[k].ID)
+		}
+		name = "rf_" + smt.Mangle(id)
+		if _, done := ex.recDefs[name]; !done {
+			ex.W.C.DeclareFun(name, argSorts, resSort)
+			bodyT := c.RenameApp(body.Tm, placeholder, name)
+			app := c.App(name, resSort, bound...)
+			ax := c.Quant("forall", bound, c.Eq(app, bodyT), []*smt.Term{app})
+			ex.recDefs[name] = &recDef{name: name, axiom: ax}
+			ex.recOrder = append(ex.recOrder, name)
+		}
+		ex.recMemo[memoKey] = name
+		ex.recReads[name] = reads
+	}
+	return Val{T: resT, Tm: c.App(name, resSort, argTerms()...)}
 }
